@@ -412,9 +412,16 @@ func (s *Server) FsCount() (int64, error) {
 func (s *Server) FsArm(k, torn int64) error {
 	return s.Ctl("POST", fmt.Sprintf("/verif/fs/arm?k=%d&torn=%d", k, torn), "", nil)
 }
+
 // FsArmPattern: die before the n-th mutation of the given kind whose path contains substr.
 func (s *Server) FsArmPattern(kind, substr, not string, n int64) error {
 	return s.Ctl("POST", fmt.Sprintf("/verif/fs/armpat?kind=%s&path=%s&not=%s&n=%d", url.QueryEscape(kind), url.QueryEscape(substr), url.QueryEscape(not), n), "", nil)
+}
+
+// FsFail: the first rename/remove at or after the k-th mutation from now fails with EIO
+// (once, without being executed).
+func (s *Server) FsFail(k int64) error {
+	return s.Ctl("POST", fmt.Sprintf("/verif/fs/fail?k=%d", k), "", nil)
 }
 func (s *Server) Points(spec string) error { return s.Ctl("POST", "/verif/points", spec, nil) }
 
